@@ -1,4 +1,7 @@
 // C26 — tracker hand-outs never include the announcer and respect priority and limits.
+
+//go:debug randseednop=0
+
 package c26
 
 import (
@@ -6,6 +9,8 @@ import (
 	"encoding/json"
 	"errors"
 	"fmt"
+	"hash/fnv"
+	"math/rand"
 	"net/http"
 	"net/http/httptest"
 	"testing"
@@ -72,7 +77,7 @@ func genAnnounce(t *rapid.T) Case {
 		bc.Err = rapid.IntRange(0, 7).Draw(t, "originerr") == 7
 		c.Blobs = append(c.Blobs, bc)
 	}
-	nsteps := rapid.IntRange(1, 60).Draw(t, "nsteps")
+	lo := rapid.IntRange(1, 50).Draw(t, "minsteps") // lower bound only: keeps histories long, still lets the shrinker delete steps
 	c.Steps = rapid.SliceOfN(rapid.Custom(func(t *rapid.T) Step {
 		return Step{
 			Peer:     rapid.IntRange(0, c.Agents-1).Draw(t, "peer"),
@@ -81,8 +86,19 @@ func genAnnounce(t *rapid.T) Case {
 			V1:       rapid.IntRange(0, 3).Draw(t, "v1") == 3,
 			NameOnly: rapid.IntRange(0, 4).Draw(t, "nameonly") == 4,
 		}
-	}), nsteps, nsteps).Draw(t, "steps")
+	}), lo, 60).Draw(t, "steps")
 	return c
+}
+
+// seedGlobalRand pins the process-wide math/rand source LocalStore.GetPeers samples
+// from to a value derived from the case, so that a case behaves the same on every
+// run (rapid refuses to shrink a failure whose message changes between two runs).
+// Needs the randseednop=0 directive above: go 1.24 made rand.Seed a no-op.
+func seedGlobalRand(c interface{}) {
+	b, _ := json.Marshal(c)
+	h := fnv.New64a()
+	h.Write(b)
+	rand.Seed(int64(h.Sum64()))
 }
 
 func agentID(i int) core.PeerID {
@@ -170,6 +186,7 @@ func runAnnounce(c Case) pbt.Verdict {
 	if !ok {
 		return pbt.Verdict{Discard: true}
 	}
+	seedGlobalRand(c)
 	policy, err := peerhandoutpolicy.NewPriorityPolicy(tally.NoopScope, c.Policy)
 	if err != nil {
 		return pbt.Fail("harness: policy %q rejected: %v", c.Policy, err)
